@@ -49,9 +49,9 @@ Definition sfx_go : bytes := bs ".go".
 
 (* ---------- internal/skipdir/skipdir.go: ShouldSkip ----------
    ShouldSkip(path): `if path == "." {return false}`; `_, name := filepath.Split(path)`; vendor / node_modules;
-   prefix "." or "_".  Every caller in the generate command passes an ABSOLUTE path (WalkFiles:
-   filepath.Abs(filepath.Join(rootPath, path))), so the "." exemption never applies and the function is a
-   function of the base name - for the root directory as well. *)
+   prefix "." or "_".  WalkFiles passes the path RELATIVE to the root of the walk (fs.WalkDir over os.DirFS(root)):
+   "." for the root itself - never skipped - and "a/b/name" below it, so for every directory inside the tree the
+   function is a function of the base name. *)
 Definition should_skip_name (name : bytes) : bool :=
   bytes_eqb name (bs "vendor") || bytes_eqb name (bs "node_modules")
   || has_prefix (bs ".") name || has_prefix (bs "_") name.
@@ -99,13 +99,16 @@ Definition emitted (pe : path * entry) : bool :=
   let '((dir, name), e) := pe in
   visible_dir dir && matches_pattern name
   && match e with Dir => negb (should_skip_name name) | File _ _ => true end.
-(* root = base name of the absolute root path ("" for "/").  WalkDir's first callback is the root itself:
-   SkipDir there ends the walk with a nil error and no event. *)
-Definition walk (root : bytes) (l : listing) : list path :=
-  if should_skip_name root then [] else map fst (filter emitted (isort l)).
+(* WalkDir's first callback is the root itself, as ".": ShouldSkip(".") = false, whatever the root is called. *)
+Definition walk (l : listing) : list path := map fst (filter emitted (isort l)).
 (* the same, as a predicate on the map *)
-Definition in_walk (root : bytes) (t : fs) (p : path) : bool :=
-  negb (should_skip_name root) && match t p with Some e => emitted (p, e) | None => false end.
+Definition in_walk (t : fs) (p : path) : bool :=
+  match t p with Some e => emitted (p, e) | None => false end.
+(* REGRESSION VARIANT, not the current code: WalkFiles before commit 91f7c9a tested ShouldSkip on the ABSOLUTE path,
+   so the "." exemption never applied and the root's own base name was tested too (SkipDir on the first callback
+   ends the walk with a nil error and no event).  root = base name of the absolute root path. *)
+Definition walk_root_tested (root : bytes) (l : listing) : list path :=
+  if should_skip_name root then [] else walk l.
 
 (* ---------- eventhandler.go ---------- *)
 (* strings.TrimSuffix(name, "_templ.go") + ".templ"  and  strings.TrimSuffix(name, ".templ") + "_templ.go" *)
